@@ -12,7 +12,7 @@ def wait_nontrivial(tok, res):
     if tok[0] == "wdstart":
         return "/" in tok[4]            # a scenario with a registration (held or not)
     if tok[0] == "cwstart":
-        return "@" in tok[5]            # a scenario with configuration reloads
+        return "@" in tok[5] or "/q" in tok[5]   # a scenario with configuration reloads / with work connections
     return False
 
 
@@ -28,7 +28,8 @@ def wait_class(r):
     if r.startswith("f="):
         return "loop"
     if r[:2] in ("p:", "r:", "b:", "c:"):
-        return "relogin"
+        # a 6th field = the connection carried a work-connection schedule (idle / used pooled work connections)
+        return "relogin+workconns" if any(c.count(":") == 5 for c in r.split(",")) else "relogin"
     return "delay" if r[:1].isdigit() else r[:10]
 
 
@@ -48,7 +49,11 @@ _T = ["lowB_pos", "step_lo_ge", "step_lo_le_hi", "step_hi_le", "slow_le_max", "s
       "updateAll_synced", "healed_init", "healed_step", "healed_run", "login_sends_all", "model_regHolds",
       "regHolds_sensitive", "reload_in_window_witness", "early_snapshot_witness",
       # ties to the source (Frp/Gen/SessFacts.lean, regenerated on every run)
-      "code_handlers_plain", "teardown_releases_code", "code_snapshot_at_login", "healed_run_code"]
+      "code_handlers_plain", "teardown_releases_code", "code_snapshot_at_login", "healed_run_code",
+      # Part F: the client's dispatcher in front of its watchdog (Frp/Model/Dispatch.lean)
+      "wrun_append", "erun_is_run", "delivered_sound", "close_sound_dispatch", "async_reader_idle",
+      "async_read_progress", "async_refines_watchdog", "fed_never_torn_down", "blocked_delivers_nothing",
+      "inline_starves", "inline_starves_witness", "code_client_dispatch", "fed_never_torn_down_code"]
 
 PROP = {
         "level": "proof",
@@ -67,16 +72,26 @@ PROP = {
                 "able to register the same names and ports), real frpc (client.NewService with a proxy set) against a "
                 "scripted raw server (silent server, pong with error, refused logins, cut connections, configuration "
                 "reloads through Service.UpdateAllConfigurer while connected and during outages; the NewProxy / CloseProxy "
-                "messages seen on every connection must add up to the configured set); non-trivial = a delay returned "
+                "messages seen on every connection must add up to the configured set; work-connection schedules: the "
+                "scripted server sends ReqWorkConn in bursts on login / after a use / at random moments, uses "
+                "(StartWorkConn) or closes some of the work connections and leaves the others idle in its pool while it "
+                "answers every ping for longer than heartbeatTimeout + 1 s + slack, or falls silent / answers with an "
+                "error: the client must not close while pongs flow, must close in time when they stop, and every request "
+                "must open a work connection whatever earlier ones are idle); non-trivial = a delay returned "
                 "after an error, a BackoffUntil run, a finished watchdog / re-login scenario, a scenario with "
                 "registrations or reloads; distinct = distinct (op line, result) pairs; harness/corpus/wait holds op "
                 "sequences the generator found against seeded defects",
         "trusted": COMMON_TRUST + [
-            "models Frp/Model/Backoff.lean, Watchdog.lean, Reconnect.lean, SessEnd.lean, Rereg.lean written by hand; tied by "
+            "models Frp/Model/Backoff.lean, Watchdog.lean, Reconnect.lean, SessEnd.lean, Rereg.lean, Dispatch.lean written by hand; tied by "
             "the wait engine (relational: every observed delay / closure time must lie in the model's interval; "
             "registrations seen / re-registrations accepted must equal the model's)",
-            "the parameters `async` (SessEnd) and `early` (Rereg) are read from the source by translate/gen_sessfacts.go "
-            "(registerMsgHandlers, Dispatcher.readLoop, AsyncHandler, worker(), loopLoginUntilSuccess) on every run",
+            "the parameters `async` (SessEnd), `early` (Rereg) and `asyncReq` (Dispatch) are read from the source by "
+            "translate/gen_sessfacts.go (server and client registerMsgHandlers, Dispatcher.readLoop, AsyncHandler, worker(), "
+            "loopLoginUntilSuccess; for the client also which handler methods wait for the peer: a call of msg.ReadMsg / "
+            "msg.ReadMsgInto / ctl.connectServer / Connect / Read in the method body) on every run",
+            "Dispatch: the handlers of NewProxyResp / NatHoleResp / Pong are modelled as returning at once (the translator "
+            "checks that their bodies contain no read from / dial to the peer; calls they make into the proxy manager and "
+            "the message transporter are not followed)",
             "Rereg uses C19's Reconcile.updateAll and its theorems update_names / update_running_cfgs / update_new_count",
             "existing /repo gates reg.checked / reg.ran / reg.added (build tag verif) are used to hold a registration",
             "float64 arithmetic of Backoff/Jitter is modelled with rationals; the generator uses dyadic factors "
@@ -93,7 +108,12 @@ PROP = {
             "the session-end model abstracts a remote port to the proxy name and other sessions / the OS to an `extFail` "
             "input; server plugins and gates only delay a registration, they never reject it in the generated scenarios",
             "a held registration is the last thing the scripted peer sends: pings queued behind a blocked read loop are "
-            "answered late by frps (the handler runs inside the read loop), which the watchdog model does not describe",
+            "answered late by frps (the handler runs inside the read loop), which the watchdog model does not describe "
+            "(the dispatcher model of Part F is instantiated for the client only)",
+            "Part F: `fed_never_torn_down` is stated for the prompt read loop (`erun`: a runnable read loop reads before the "
+            "next timed event; `erun_is_run` shows these are schedules of the small-step model); for arbitrary schedules "
+            "`close_sound_dispatch`, `async_reader_idle` and `async_read_progress` hold; the phase of the client's 1 s "
+            "checker is unknown to the engine, which therefore compares closure times relationally",
             "option sets outside WF (Factor < 1, zero Duration, zero FastRetryDelay) are generated (malformed stream) "
             "and compared with the model, but the lower-bound clause is not claimed for them",
             "with MaxDuration = 0 (no frp call site does this) the delay grows without bound and overflows int64 after "
@@ -111,8 +131,9 @@ META = {
         "engine": "lean+harness(wait)",
         "design_ref": "DESIGN.md §6 C14",
         "technique": "Lean 4 proofs by induction over all call / event histories of the back-off manager, the heartbeat "
-                     "watchdog, the server session-end (small-step, all interleavings) and the client re-registration "
-                     "models; go/ast extraction of two structural facts; relational differential correspondence with the real "
+                     "watchdog, the client dispatcher in front of it (small-step, all interleavings + prompt read loop), the "
+                     "server session-end (small-step, all interleavings) and the client re-registration "
+                     "models; go/ast extraction of three structural facts; relational differential correspondence with the real "
                      "wait.fastBackoffImpl, wait.BackoffUntil, server.Control and client.Control/Service on loopback",
         "text": "Proof (partial): for every option set with Duration > 0, Factor = 0 or >= 1 and positive fast-retry delay, "
                 "every success/error history, every clock and every jitter draw, each delay the reconnect back-off hands "
@@ -122,15 +143,20 @@ META = {
                 "strictly more than the timeout of silence since the last valid heartbeat, closes at the first check after "
                 "it (within timeout + checker period), never closes while valid heartbeats arrive at spacing <= timeout, "
                 "ignores invalid pings, closes on a pong carrying an error, and is off when the timeout (or the client "
-                "interval) is <= 0 (the default with tcpMux); for every interleaving of peer, read loop, NewProxy handler, "
+                "interval) is <= 0 (the default with tcpMux); on the client, for every history of Pongs, ReqWorkConn and work "
+                "connections being used, closed or left idle for ever, the read loop is never occupied (ReqWorkConn is handled "
+                "through AsyncHandler), the watchdog's state is that of the bare watchdog fed with the Pongs when they are "
+                "sent, so a server that keeps answering is never torn down, whereas with a plain ReqWorkConn handler one idle "
+                "work connection closes the session within timeout + checker period whatever the server sends "
+                "(inline_starves, witness); for every interleaving of peer, read loop, NewProxy handler, "
                 "watchdog and worker() a torn-down server session holds no remote port and no proxy name, registrations in "
                 "flight at the end of the connection included, and the teardown is reached in <= 6 own steps once the "
                 "connection ended; for every history of reloads, connection losses, refused and successful logins a live "
                 "client control runs exactly the stored configuration and a login announces every configured proxy once. "
                 "Kernel-checked, axioms propext/Classical.choice/Quot.sound only. Tied to the code by a go/ast extraction of "
-                "the handler registration mode and the snapshot point, and by ~5k (quick) generated operations per run on "
-                "the real functions, including real frps/frpc watchdog, registration-in-flight, re-login and reload-during-"
-                "outage scenarios with 1-3 s timeouts.",
+                "the handler registration modes (server and client) and the snapshot point, and by ~5k (quick) generated "
+                "operations per run on the real functions, including real frps/frpc watchdog, registration-in-flight, "
+                "re-login, reload-during-outage and idle-pooled-work-connection scenarios with 1-3 s timeouts.",
         "note": "Partial: timers, the scheduler and the network are sampled, not proved. The code allows up to "
                 "2*FastRetryCount fast retries per window (5 in the first minute with frpc's options), not FastRetryCount as "
                 "the comment in client/service.go says (fast_per_window_count_witness); this does not break the property.",
